@@ -337,6 +337,10 @@ def gen_permeate(rng, mode, mixture, t_feed, comp, model="NRTL"):
     if mode == "P0":
         return None, 0.0
     pb = bubble_pressure(mixture, t_feed, comp, model)
+    if mode == "Pneutral":
+        # the permeate pressure at which the pressure-mode composition map has a neutral 2-cycle, F(F(y)) = y: the
+        # permeance-weighted mean of the two feed partial pressures (needs the permeances: supplied by the caller)
+        raise ValueError("Pneutral needs permeances: use neutral_pressure()")
     if mode == "Psmall":
         return None, min(rng.uniform(0, 2.0), 0.9 * pb)
     # "P": mostly below the bubble pressure so that the driving forces stay positive
@@ -344,6 +348,14 @@ def gen_permeate(rng, mode, mixture, t_feed, comp, model="NRTL"):
     if u < 0.8:
         return None, rng.uniform(0, 0.9) * min(pb, 100.0)
     return None, rng.uniform(0, 100.0)
+
+
+def neutral_pressure(rng, mixture, t_feed, comp, model, p1, p2):
+    from pyvaporation.mixtures import get_partial_pressures
+
+    pf = get_partial_pressures(t_feed, mixture, comp, model)
+    p = (p1 * float(pf[0]) + p2 * float(pf[1])) / (p1 + p2)
+    return p * (1 + rng.choice([0.0, 0.0, 1e-15, -1e-15, 1e-12, -1e-12, 1e-9, -1e-9, 1e-6, -1e-6, 1e-4, -1e-4]))
 
 
 # --------------------------------------------------------------------------- conditions / programmes
@@ -398,7 +410,7 @@ def synth_permeance_law(rng, temperature_dependent=True):
 def gen_curve_set(rng, mixture, n_curves=None, basis=None, n_points=None, units=None, temps=None):
     """synthetic composition- and temperature-dependent diffusion-curve set built from permeances"""
     n_curves = n_curves or rng.randint(1, 3)
-    basis = basis or rng.choice(["weight", "molar"])
+    basis = basis or rng.choice(["weight", "molar", "mixed"])  # 'mixed': the basis is chosen per point (the file format stores it per point)
     units = units or Units.kg_m2_h_kPa
     law1, d1 = synth_permeance_law(rng)
     law2, d2 = synth_permeance_law(rng)
@@ -417,7 +429,8 @@ def gen_curve_set(rng, mixture, n_curves=None, basis=None, n_points=None, units=
         comps, perms = [], []
         for w in ws:
             cw = Composition(p=w, type=CompositionType.weight)
-            comps.append(to_molar_exact(cw, mixture) if basis == "molar" else cw)
+            point_basis = rng.choice(["weight", "molar"]) if basis == "mixed" else basis
+            comps.append(to_molar_exact(cw, mixture) if point_basis == "molar" else cw)
             perms.append(
                 (
                     permeance_in_units(law1(w, t), units, mixture.first_component),
@@ -460,6 +473,11 @@ class FluxCase:
         self.pv = Pervaporation(self.membrane, self.mix)
         self.t_feed = pick_temperature(rng, 273.0, 400.0)
         self.comp = pooled_composition(rng) if rng.random() < 0.15 else gen_composition(rng, self.mix, edge=edge)
+        if rng.random() < 0.08:
+            # 'hot' case: grid temperature AND pooled composition together, so that different mixtures of equal name meet
+            # at exactly the same (T, composition) key within one process
+            self.t_feed = rng.choice(TEMPERATURE_GRID)
+            self.comp = pooled_composition(rng)
         self.mode = rng.choice(modes or MODES)
         self.from_membrane = rng.random() < p_membrane
         if self.from_membrane and rng.random() < 0.25:
@@ -473,7 +491,10 @@ class FluxCase:
             self.p2 = Permeance(value=gen_permeance_value(rng))
         self.precision = loguniform(rng, 1e-8, 1e-3)
         try:
-            self.tp, self.pp = gen_permeate(rng, self.mode, self.mix, self.t_feed, self.comp, self.model)
+            if self.mode == "Pneutral":
+                self.tp, self.pp = None, neutral_pressure(rng, self.mix, self.t_feed, self.comp, self.model, self.p1.value, self.p2.value)
+            else:
+                self.tp, self.pp = gen_permeate(rng, self.mode, self.mix, self.t_feed, self.comp, self.model)
         except Exception:
             self.tp, self.pp = None, None
             self.mode = "V"
